@@ -544,9 +544,10 @@ func genRtspSrvCase(t *rapid.T) RtspSrvCase {
 	}
 	c.Udp = rapid.IntRange(0, 5).Draw(t, "udp") == 0
 	c.GetParameter = rapid.IntRange(0, 3).Draw(t, "getParameter") == 0
-	if c.Udp && c.GetParameter && !(pbt.Thorough() && rapid.IntRange(0, 9).Draw(t, "udpKeepalive") == 0) {
-		// with UDP transport and GET_PARAMETER keep-alive lal does not read the command connection between two
-		// keep-alives (10 s apart): it notices the server's EOF only then.  By design; kept rare because of the wait.
+	if c.Udp && c.GetParameter {
+		// with UDP transport and GET_PARAMETER keep-alive lal reads the command connection only when a keep-alive is
+		// due (every 10 s, one message each time): it consumes a scripted tail at that pace and notices the server's
+		// EOF only then.  By design, and indistinguishable from a stuck session within any reasonable wait: not generated.
 		c.GetParameter = false
 	}
 	rc := &RtspCase{Stage: "recording", Video: c.Video, Audio: c.Audio}
